@@ -347,6 +347,57 @@ theorem entry_accepts_iff_grammar (e : Entry) (st : Style) (apps : List KName)
   refine ⟨this, ?_⟩
   rw [this, accepts_term_independent, accepts_iff_grammar]
 
+/-- THE ITERATOR ENTRY DENOTES THE SAME: every render a (caching) `ImageIterator` makes — first loop, and
+    re-renders of later loops after the image size changed — uses exactly the alignment, padding, alpha and
+    style arguments the specifier denotes; a rejected specifier renders nothing. -/
+theorem iter_renders_denote (st : Style) (apps : List KName) (h : ∀ k ∈ apps, ∃ n, k = .app n)
+    (cols lines : Nat) (s : List Char) (nFrames : Nat) (changed : List Bool) :
+    (∀ rs, iterEntry (apps ++ styleMro st) cols lines s nFrames changed = .ok rs →
+      ∃ sen : Sentence, sen.wf st = true ∧ sen.unparse = s ∧ (∀ x ∈ rs, x = sen.denote cols lines) ∧
+        rs.length = nFrames * (1 + (changed.filter id).length)) ∧
+    (∀ e, iterEntry (apps ++ styleMro st) cols lines s nFrames changed = .error e →
+      checkFormatSpec st cols lines s = .error e) := by
+  have he := (entry_accepts_iff_grammar .iter st apps h cols lines s).1
+  unfold iterEntry
+  rw [he]
+  cases hc : checkFormatSpec st cols lines s with
+  | error e => simp
+  | ok r =>
+    obtain ⟨sen, h1, h2, h3⟩ := parse_sound st cols lines s r hc
+    refine ⟨?_, by simp⟩
+    intro rs hrs
+    simp only [Except.ok.injEq] at hrs
+    subst hrs
+    refine ⟨sen, h1, h2, ?_, ?_⟩
+    · intro x hx
+      simp only [iterRenders, List.mem_append, List.mem_replicate, List.mem_flatMap] at hx
+      rcases hx with hx | ⟨c, _, hx⟩
+      · rw [hx.2, h3]
+      · cases c <;> simp at hx
+        rw [hx.2, h3]
+    · simp only [iterRenders, List.length_append, List.length_replicate]
+      have : ∀ l : List Bool, (l.flatMap fun c => if c then List.replicate nFrames r else []).length =
+          nFrames * (l.filter id).length := by
+        intro l
+        induction l with
+        | nil => simp
+        | cons c t ih =>
+          cases c <;> simp [List.flatMap_cons, ih, Nat.mul_add, Nat.add_comm]
+      rw [this, Nat.mul_add, Nat.mul_one]
+
+/-- NO SIDE EFFECT ON REJECTION at the widget entry: `UrwidImage(image, spec)` with a rejected specifier
+    leaves the shared z-index pool as it was (no index taken) — for every pool and allocation discipline. -/
+theorem urwid_rejected_no_side_effect {P : Type} (alloc : P → Int × P) (mro : List KName)
+    (cols lines : Nat) (s : List Char) (pool : P) (e : Err)
+    (h : (urwidEntry alloc mro cols lines s pool).2.2 = .error e) :
+    (urwidEntry alloc mro cols lines s pool).1 = pool ∧ (urwidEntry alloc mro cols lines s pool).2.1 = false := by
+  unfold urwidEntry at h ⊢
+  cases hc : entryCheck .urwid mro cols lines s with
+  | error e' => simp
+  | ok r =>
+    simp only [hc] at h
+    split at h <;> simp at h
+
 /-- NO SIDE EFFECT ON REJECTION, over the entry point with the instance state explicit: when
     `image.__format__(spec)` raises, the instance state (size setting — a dynamic `Size` stays that `Size` —
     and frame position) is what it was, and nothing but the terminal-size read happened: the renderer was not
@@ -471,6 +522,12 @@ example : (formatEntry .block 80 30 (fun _ => (56, 28)) ⟨.dyn 3, 0⟩ "<.^".to
 -- dispatch_subclass: a two-level application subclass of ITerm2Image; and an MRO whose `super()` loops is refused
 example : dispatch ([.app 1, .app 0] ++ styleMro .iterm2) = some .iterm2 := by decide
 example : entryCheck .iter ([.app 0] ++ styleMro .kitty) 80 30 "5.5+c9".toList = checkFormatSpec .kitty 80 30 "5.5+c9".toList := by decide
+-- iter_renders_denote / urwid_rejected_no_side_effect
+example : iterEntry (styleMro .kitty) 80 30 "+Wz5m1c9".toList 3 [true, false] =
+    .ok (List.replicate 6 ((⟨none, [], none, none, some ⟨some 'W', some (false, ['5']), some '1', some '9'⟩⟩ : Sentence).denote 80 30)) := by decide
+example : (urwidEntry (fun (n : Nat) => ((n : Int), n + 1)) (styleMro .kitty) 80 30 "+x".toList 7) =
+    (7, false, .error .styleError) := by decide
+example : (urwidEntry (fun (n : Nat) => ((n : Int), n + 1)) (styleMro .kitty) 80 30 "+L".toList 7).1 = 8 := by decide
 -- format_eq_draw_params: a sentence with width ≤ terminal width
 example : (⟨some '<', ['7'], none, some .termbg, none⟩ : Sentence).wf .block = true ∧
     natOfDigits ['7'] ≤ 80 := by decide
